@@ -138,7 +138,7 @@ Theorem built_alnum b :
 Proof using All.
   intro Hb. destruct row_facts as (ks & items & Hp & Eks & Hke & Hlen & Halg).
   destruct (fc_result_ext the_env the_components the_table the_algos env_obl gen_zero_obl cc r values Er (layout_of cc r Er) ONLY
-              b Hb (fun K => gen_shape cc r Er _ K)) as (K & HK & _ & _ & _ & _ & Hpred).
+              b Hb (fun K => gen_shape cc r Er _ K)) as (K & HK & _ & _ & _ & _ & Hpred & _).
   apply (Hpred in_alpha eq_refl). intros k Hk Hne.
   rewrite (V2_eq the_env the_components the_table the_algos env_obl gen_zero_obl cc r values Er (layout_of cc r Er) ONLY).
   (* the guards and the structure check have passed, since the call succeeded *)
